@@ -4,6 +4,7 @@ import WuffsVerif.Model.CExpr
 import WuffsVerif.Model.Iterate
 import WuffsVerif.Model.CStmtAst
 import WuffsVerif.Model.CExprTreeAst
+import WuffsVerif.Model.CSigned
 /-! Line driver for C04.  Stateful ops:
 
   case <id> <serialised typed AST of one struct + its methods>   -> init ok | bad-program
@@ -22,6 +23,7 @@ Stateless ops of the shape check (canonical prefix form of the C that `lower…`
 an operand kind is `v` (no ConstValue) or `c<value>`):
   lower <Bop> <ty> <lk> <rk>        lowerun <Uop>        lowerassoc <Aop> <ty> <n> [<k0> <k1>]
   loweras <from> <to> plain|maskR:<m>|maskL:<m>          lowerassign <op=> <ty> <rk>
+  lowersigned <op> <ity> <lk> <rk>   (signed operand types; literal suffixes are part of the text)
 -/
 open WuffsVerif WuffsVerif.Line WuffsVerif.WSem WuffsVerif.WOps WuffsVerif.C
 
@@ -98,6 +100,16 @@ def shapeStep (l : List String) : Option String :=
     match lowerAssign w t rc.isSome with
     | some a => pure (substAssign (fun i => if i == 1 then rc else none) a).show
     | none => pure "none"
+  | ["lowersigned", op, _ty, lk, rk] => do
+    -- a binary node whose operands have a signed type (Model/CSigned.lean lowerSigned)
+    let o : CSigned.SOp ← (match op with
+      | "add" => some .add | "sub" => some .sub | "mul" => some .mul | "lt" => some .lt | "le" => some .le
+      | "gt" => some .gt | "ge" => some .ge | "eq" => some .eq | "ne" => some .ne | _ => none)
+    let lc ← parseKind lk
+    let rc ← parseKind rk
+    let l : CSigned.Opd := match lc with | some c => .const (Int.ofNat c) | none => .var 0
+    let r : CSigned.Opd := match rc with | some c => .const (Int.ofNat c) | none => .var 1
+    pure (CSigned.showNode o (CSigned.lowerSigned l r))
   | ["iterchain", n, spec] => do
     -- the model of the emitted rounds (Model/Iterate.lean cChain), from offset 0
     let n ← n.toNat?
